@@ -111,6 +111,18 @@ pub fn wellformed(seed: u64, idx: u64) -> Scenario {
                 let (class, bytes) = mutated_request(&mut rng, "/file.txt", sc.request_size as usize);
                 sc.conns.push(Conn::simple(id, id as u32, if bytes.is_empty() { b"G".to_vec() } else { bytes }, class));
             }
+            _ if rng.chance(1, 3) => {
+                // reflection through the request target: a query parameter whose value decodes to
+                // header syntax, next to the same request with a benign value
+                let pname = *rng.pick(QUERY_PARAMS);
+                let method = *rng.pick(&["GET", "GET", "HEAD", "OPTIONS"]);
+                let target = *rng.pick(&["/file.txt", "/page", "/d/", "/", "/missing", "/style.css"]);
+                let mk = |val: &str| req(method, &format!("{}?{}={}", target, pname, val), &[("Origin", "http://a.example")], b"");
+                sc.conns.push(Conn::simple(id, id as u32, mk(*rng.pick(QUERY_BENIGN)), "query_benign"));
+                let mut c = Conn::simple(id + 1, id as u32 + 1, mk(*rng.pick(QUERY_INJECT)), "query_hostile");
+                c.twin = Some(id);
+                sc.conns.push(c);
+            }
             _ => {
                 // reflection pair: same request with benign and with hostile values
                 let hname = *rng.pick(&["Origin", "Access-Control-Request-Method", "Access-Control-Request-Headers", "Range", "Content-Type", "Host"]);
